@@ -393,3 +393,109 @@ func nmoveSweeps(p *Prog, r *Report, rule string) {
 	r.Ob("leaching:bottom", "-", okLeach, fmt.Sprintf("downward flux through the profile bottom is booked in the leaching counter: %v", okLeach))
 	_ = sort.Strings
 }
+
+// ---------------------------------------------------------------- inputs enter in full
+
+// c02Inputs: nitrogen that enters with irrigation water and with atmospheric
+// deposition is added to the top layer in full — the amount added is the very
+// amount computed (and reported) for the event, not a capped or scaled part of
+// it; an amount that is neither stored nor booked anywhere has left the balance.
+func c02Inputs(p *Prog, r *Report, rule string) {
+	r.Rule(rule, "inputs enter in full: on an irrigation day the top layer's mineral N grows by exactly concentration × amount of that irrigation event (same event slot, unit factor 1/100), under no other condition than 'the amount is positive'; every day it grows by the daily share of the yearly deposition", 2)
+	x := walked(p, "hermes.HermesSession.Run")
+	if x == nil {
+		r.Ob("Run", "-", false, "run closure not found")
+		return
+	}
+	nIrr, nDep := 0, 0
+	for _, e := range x.Events {
+		if e.Kind != "assign" || e.Root != "GlobalVarsMain.C1" || len(e.Idx) != 1 || !e.Idx[0].IsZero() || len(e.Loops) == 0 {
+			continue
+		}
+		irr := e.HasGuard(func(c *Cond) bool { return c.Kind == "cmp" && c.Op == token.EQL && c.P.MentionsRoot("GlobalVarsMain.ZTBR") })
+		d := stripVersions(e.Val.Sub(e.Old))
+		switch {
+		case irr:
+			nIrr++
+			ok := false
+			det := fmt.Sprintf("ΔC1[0] = %s", clip(d.String(), 120))
+			if t := d.single(); t != nil && len(t.M) == 2 {
+				var kz, rg *Atom
+				for _, f := range t.M {
+					if f.E == 1 && f.A.Kind == "cell" && f.A.Root == "GlobalVarsMain.BRKZ" {
+						kz = f.A
+					}
+					if f.E == 1 && f.A.Kind == "cell" && f.A.Root == "GlobalVarsMain.BREG" {
+						rg = f.A
+					}
+				}
+				c, _ := t.C.Float64()
+				ok = kz != nil && rg != nil && kz.Idx[0].Equal(rg.Idx[0]) && c > 0.0099999 && c < 0.0100001
+			}
+			// guards: the event test and 'amount > 0' only (besides the loop and run-setup guards shared with the deposition store)
+			pos := guardedBy(e, e.Val.Sub(e.Old), token.GTR)
+			r.Ob("irrigation-N", p.Pos(e.Pos), ok && pos, det+fmt.Sprintf(" (must be BRKZ[slot]·BREG[slot]/100 of the same slot, added whenever positive: %v) — a cap or a share drops N that the event reports as applied", pos))
+		case d.MentionsRoot("GlobalVarsMain.DEPOS") && !e.Val.IsZero():
+			nDep++
+			want := cellP("GlobalVarsMain.DEPOS").Mul(cellP("GlobalVarsMain.DT.Index")).Scale(ratFrac(1, 365))
+			r.Ob("deposition", p.Pos(e.Pos), d.Equal(want), fmt.Sprintf("ΔC1[0] = %s (must be DEPOS/365·DT)", d))
+		}
+	}
+	if nIrr != 1 {
+		r.Ob("irrigation-N", "-", false, fmt.Sprintf("%d stores add irrigation N to the top layer, expected 1", nIrr))
+	}
+	if nDep != 1 {
+		r.Ob("deposition", "-", false, fmt.Sprintf("%d stores add the deposition to the top layer, expected 1", nDep))
+	}
+}
+
+// ---------------------------------------------------------------- daily reset of the uptake demand
+
+// uptakeReset: the per-layer N uptake demand PE is written by the crop routine
+// for the rooted layers only; the transport routine credits PE of EVERY layer
+// on the first sub-step.  The demand must therefore be cleared for all layers,
+// unconditionally, once per day after the sub-steps — otherwise a layer that
+// leaves the uptake zone keeps yesterday's demand and is debited every day.
+func uptakeReset(p *Prog, r *Report, rule string) {
+	r.Rule(rule, "daily reset of the N uptake demand: in the day loop, after the sub-step loop, an unconditional sweep over all layers 0..N−1 sets the per-layer demand to zero (the crop routine only rewrites the rooted layers, the transport routine credits every layer)", 1)
+	x := walked(p, "hermes.HermesSession.Run")
+	si := substepScope(p)
+	if x == nil || si.Loop == nil {
+		r.Ob("reset:PE", "-", false, "run closure or sub-step loop not found")
+		return
+	}
+	N := cellP("GlobalVarsMain.N")
+	found := false
+	pos := "-"
+	for _, L := range loopsOf(x) {
+		if L.Stmt.Pos() < si.Loop.Stmt.End() {
+			continue
+		}
+		var ev *Event
+		for _, e := range x.Events {
+			if e.Kind == "assign" && e.Root == "GlobalVarsMain.PE" && innermost(e, L) && e.Val.IsZero() && len(e.Idx) == 1 {
+				ev = e
+			}
+		}
+		if ev == nil || len(ev.Loops) != 2 {
+			continue
+		}
+		day := ev.Loops[0]
+		lo, hi, unit, why := loopBounds(x, L)
+		if why != "" || !unit || L.Var == nil {
+			continue
+		}
+		off, okOff := ev.Idx[0].Sub(PAtom(L.Var)).ConstInt()
+		if !okOff {
+			continue
+		}
+		full := stripVersions(lo.Add(PInt(off))).IsZero() && stripVersions(hi.Add(PInt(off))).Equal(N.Sub(PInt(1)))
+		// unconditional within the day loop: the sweep's entry guards are those of the day loop
+		uncond := len(inLoopGuardsNoBreak(ev, day)) == 0
+		if full && uncond {
+			found = true
+			pos = p.Pos(L.Stmt.Pos())
+		}
+	}
+	r.Ob("reset:PE", pos, found, fmt.Sprintf("unconditional zeroing of the uptake demand of all layers after the sub-step loop: %v", found))
+}
